@@ -58,6 +58,7 @@ def log(*a):
 # ----------------------------------------------------------------------------------------------
 _built = {}
 TRACE_HOOK = [True]
+FLAGS_HOOK = [True]
 
 
 def build_harness(flavour="default"):
@@ -73,12 +74,13 @@ def build_harness(flavour="default"):
     p = subprocess.run(cmd, cwd=HARNESS, env=env, stdout=subprocess.PIPE, stderr=subprocess.STDOUT, text=True)
     if p.returncode != 0:
         # the event-log hook (H2b) reaches into the preprocessor's internals; if a change of /repo broke it, go on without it
-        env2 = dict(env, RUSTFLAGS="--cfg cc6502_verif --check-cfg cfg(cc6502_verif) --check-cfg cfg(cc6502_verif_trace)")
+        env2 = dict(env, RUSTFLAGS="--cfg cc6502_verif --check-cfg cfg(cc6502_verif) --check-cfg cfg(cc6502_verif_trace) --check-cfg cfg(cc6502_verif_flags)")
         p2 = subprocess.run(cmd, cwd=HARNESS, env=env2, stdout=subprocess.PIPE, stderr=subprocess.STDOUT, text=True)
         if p2.returncode != 0:
             raise ToolError("harness build failed (does /repo still compile?):\n" + p.stdout[-3000:])
-        log("NOTE: built without the event-log hook (cfg cc6502_verif_trace does not compile on this tree)")
+        log("NOTE: built without the event-log hooks (cfg cc6502_verif_trace / cc6502_verif_flags do not compile on this tree)")
         TRACE_HOOK[0] = False
+        FLAGS_HOOK[0] = False
     exe = os.path.join(HARNESS, tdir, "debug", "vharness")
     log("harness[%s] built in %.1fs" % (flavour, time.time() - t0))
     _built[flavour] = exe
